@@ -107,38 +107,7 @@ def run(ctx: Ctx):
         ctx.check(same, "R15.a", g.key("substitutions"), "local name and qualified name both map to the unique name", f"extract_nested_variables maps the local name to {local[0][2]} and the qualified name to {qual[0][2]}", g.where())
 
     ctx.rule("R15.b", "the state-derivative and the intermediate branch apply the same substitution chain, in the same order; states take their initial value by state index; constants by value", floor=6)
-    # both branches (state derivative, intermediate) rename the expression with the same chain of substitutions
-    fn15 = util.nf(ctx, "myokit.py", "myokit_to_gotran")  # private helpers expanded
-    cn15 = util.canon_of(fn15)
-    chains = []
-    for w in [n for n in ast.walk(fn15.node) if isinstance(n, ast.With)]:
-        xs = []
-        for s_ in ast.walk(w):
-            if isinstance(s_, ast.Call) and isinstance(s_.func, ast.Attribute) and s_.func.attr == "xreplace" and s_.args:
-                xs.append(util.alpha_text(cn15.resolve(s_.args[0])))
-        if xs:
-            chains.append(xs)
-    want = [util.alpha_text(t_) for t_ in ("{v.name(): v.uname() for v in var.variables(deep=True)}", "component_subs.get(component.name(), {})", "all_subs")]
-    if len(chains) != 2:
-        ctx.undecided("R15.b", f.key("substitution-chains"), f"the two renaming chains are not found inside `with evaluate(False)` blocks (found {len(chains)})", f.where())
-    else:
-        ctx.check(all(sorted(c) == sorted(want) and c[-1] == "all_subs" for c in chains) and chains[0] == chains[1], "R15.b", f.key("substitution-chains"), "nested names, component names, qualified names - twice", f"the substitution chains of the two branches are {chains}", f.where())
-    st = [c for c in ast.walk(f.node) if isinstance(c, ast.Call) and norm(c.func) == "atoms.State"]
-    ctx.check(bool(st) and norm(call_kw(st[0], "value")) == "initial_values[var.index()]" and norm(call_kw(st[0], "name")) == "name", "R15.b", f.key("initial-values"), "state value = initial_values[var.index()]", f"a state's initial value is taken as {norm(call_kw(st[0], 'value')) if st else None}: with any other lookup states get each other's initial values when declaration order and state index differ", f.where(st[0]) if st else f.where())
-    iv = [n for n in ast.walk(f.node) if isinstance(n, ast.Assign) and norm(n.targets[0]) == "initial_values"]
-    ctx.check(bool(iv) and norm(iv[0].value) == "model.initial_values()", "R15.b", f.key("initial-values-source"), "initial_values = model.initial_values()", f"initial_values is {norm(iv[0].value) if iv else None}", f.where())
-    sd = [c for c in ast.walk(f.node) if isinstance(c, ast.Call) and norm(c.func) == "atoms.StateDerivative"]
-    oksd = bool(sd) and fstring_skeleton(call_kw(sd[0], "name")) == "d{name}_dt" and norm(call_kw(sd[0], "state")) == "state" and norm(call_kw(sd[0], "expr")) == "expr"
-    ctx.check(oksd, "R15.b", f.key("derivative"), "d<name>_dt with the state's own expression", "the StateDerivative atom is not named d<name>_dt / not bound to its state and expression", f.where())
-    pr = [c for c in ast.walk(f.node) if isinstance(c, ast.Call) and norm(c.func) == "atoms.Parameter"]
-    okp = bool(pr) and norm(call_kw(pr[0], "value")) == "var.value()" and any(isinstance(n, ast.If) and norm(n.test) == "expr.is_Number" for n in ast.walk(f.node))
-    ctx.check(okp, "R15.b", f.key("parameter-split"), "a variable whose rhs is a number is a parameter with that value", "the parameter / intermediate split is not `expr.is_Number` with value var.value()", f.where())
-    sk = [n for n in ast.walk(f.node) if isinstance(n, ast.If) and norm(n.test).replace('"', "'") == "name == 'time'" and any(isinstance(s, ast.Continue) for s in n.body)]
-    ctx.check(bool(sk), "R15.b", f.key("time"), "the time variable is skipped", "the time variable is no longer skipped", f.where())
-    mc = [c for c in ast.walk(f.node) if isinstance(c, ast.Call) and norm(c.func) == "MyokitComponent"]
-    okm = bool(mc) and {k.arg: norm(k.value) for k in mc[0].keywords} == {"name": "component.name()", "states": "frozenset(states)", "parameters": "frozenset(parameters)", "intermediates": "frozenset(intermediates)", "state_derivatives": "frozenset(derivatives)"}
-    ctx.check(okm, "R15.b", f.key("component"), "every collected atom goes into the component", "MyokitComponent is not built from all collected states, parameters, intermediates and derivatives", f.where())
-
+    check_myokit_import(ctx, "R15.b")
     util.same_as_reference(
         ctx,
         "R15.b",
@@ -246,3 +215,104 @@ def check_myokit_export(ctx: Ctx, rule: str):
     proms = [v for v in log if v[0] == "mcall" and v[2] == "promote" and len(v[3]) == 1]
     sv = any(p_[3][0] == ("attr", ("attr", p_[1][2][1][1], "state"), "value") for p_ in proms if p_[1][0] == "sub" and p_[1][2][0] == "attr" and p_[1][2][1][0] == "attr" and p_[1][2][1][2] == "state")
     ctx.check(pvals and sv, rule, h.key("values"), "parameter values and state initial values are exported", "gotran_to_myokit does not export parameter values / initial state values from the atoms", h.where())
+
+
+def check_myokit_import(ctx: Ctx, rule: str):
+    """myokit_to_gotran, read from the atoms it constructs (the constructor calls it makes, as values): the two
+    expression kinds are renamed by the same chain of three substitutions in the same order; a state takes
+    `initial_values()[var.index()]`; the derivative is `d<name>_dt` bound to that state; a variable whose rhs is a
+    number is a parameter with `var.value()`; the time variable is skipped; every collected atom goes into the
+    component."""
+    from sa import av as _av
+
+    from . import util
+
+    f = ctx.sm.func("myokit.py", "myokit_to_gotran")
+    A = util.AV(ctx)
+    n0 = len(A.call_log)
+    try:
+        A.returned(f)
+    except Exception as e:
+        ctx.undecided(rule, f.key("substitution-chains"), f"myokit_to_gotran could not be evaluated ({e})", f.where())
+        return
+    log = [v for _f, _n, v in A.call_log[n0:]]
+
+    def ctor(name):
+        return [v for v in log if v[0] == "call" and v[1].split(".")[-1] == name]
+
+    def chain(expr):
+        """x.xreplace(a).xreplace(b)... -> (x, [a, b, ...])"""
+        args = []
+        while expr is not None and expr[0] == "mcall" and expr[2] == "xreplace" and len(expr[3]) == 1:
+            args.append(expr[3][0])
+            expr = expr[1]
+        return expr, list(reversed(args))
+
+    st, sd, pr, im, mc = ctor("State"), ctor("StateDerivative"), ctor("Parameter"), ctor("Intermediate"), ctor("MyokitComponent")
+    if not (st and sd and pr and im and mc) or any(_av.has_unk(v) for v in st[:1] + sd[:1] + pr[:1] + im[:1]):
+        for k in ("substitution-chains", "initial-values", "derivative", "parameter-split", "time", "component"):
+            ctx.undecided(rule, f.key(k), "the atoms myokit_to_gotran constructs are not all found / understood in what it does", f.where())
+        return
+    kw = lambda c: dict(c[3])  # noqa: E731
+    # 1. substitution chains
+    src_d, ch_d = chain(kw(sd[0]).get("expr"))
+    src_i, ch_i = chain(kw(im[0]).get("expr"))
+    okc = len(ch_d) == 3 and ch_d == ch_i
+    shape = False
+    if okc:
+        a, b, c = ch_d
+        nested = a[0] == "comp" and len(a[3]) == 1 and a[3][0][0] == "kv" and a[3][0][1] == ("mcall", ("bv", a[1]), "name", (), ()) and a[3][0][2] == ("mcall", ("bv", a[1]), "uname", (), ())
+        per_comp = b[0] == "mcall" and b[2] == "get" and b[1][0] == "sub" and b[1][2] == _av.C(1)
+        qualified = c[0] == "sub" and c[2] == _av.C(0) and per_comp and c[1] == b[1][1]
+        shape = nested and per_comp and qualified
+    ctx.check(okc and shape, rule, f.key("substitution-chains"), "nested names, component names, qualified names - twice", f"the substitution chains of the state-derivative and the intermediate branch are {[_av.show(x)[:60] for x in ch_d]} / {[_av.show(x)[:60] for x in ch_i]}: not the same three renamings (nested names, the component's table, all qualified names) in that order", f.where())
+    # 2. initial values
+    sv = kw(st[0]).get("value")
+    var = None
+    oki = sv is not None and sv[0] == "sub" and sv[1][0] == "mcall" and sv[1][2] == "initial_values" and sv[2][0] == "mcall" and sv[2][2] == "index" and sv[2][1][0] == "bv"
+    if oki:
+        var = sv[2][1]
+    ctx.check(oki, rule, f.key("initial-values"), "state value = model.initial_values()[var.index()]", f"a state's initial value is taken as {_av.show(sv)[:100] if sv else None}: with any other lookup states get each other's initial values when declaration order and state index differ", f.where())
+    # 3. derivative
+    dk = kw(sd[0])
+    nm = kw(st[0]).get("name")
+    okd = dk.get("state") == st[0] and nm is not None and dk.get("name") == _av.mk_s((("lit", "d"), ("h", nm), ("lit", "_dt"))) and src_d is not None and var is not None and _mentions(src_d, var)
+    ctx.check(okd, rule, f.key("derivative"), "d<name>_dt with the state's own expression", f"the StateDerivative atom is not named d<name>_dt / not bound to its state and its own right-hand side (name {_av.show(dk.get('name'))[:60] if dk.get('name') else None})", f.where())
+    # 4. parameter split and time: read from the conditions under which each kind is collected
+    comp = mc[0]
+    ck = kw(comp)
+    kinds = {"states": "State", "parameters": "Parameter", "intermediates": "Intermediate", "state_derivatives": "StateDerivative"}
+    conds = {}
+    okm = True
+    for field, cname in kinds.items():
+        val = ck.get(field)
+        inner = _av._unwrap_seq(val[2][0]) if val is not None and val[0] == "call" and val[1] in ("frozenset", "tuple", "set", "list") and val[2] else (val if val is not None else None)
+        if inner is None or inner[0] != "comp" or len(inner[3]) != 1 or not (inner[3][0][0] == "call" and inner[3][0][1].split(".")[-1] == cname):
+            okm = False
+            continue
+        conds[field] = inner[4]
+    ctx.check(okm and len(conds) == 4, rule, f.key("component"), "every collected atom goes into the component", "MyokitComponent is not built from all collected states, parameters, intermediates and derivatives (each as the set of the atoms constructed for the component's variables)", f.where())
+    if len(conds) == 4:
+        def flat(cs):
+            out = []
+            for c in cs:
+                out.extend(c[2] if c[0] == "bool" and c[1] == "and" else [c])
+            return out
+
+        pc, ic, sc = flat(conds["parameters"]), flat(conds["intermediates"]), flat(conds["states"])
+        is_num = [c for c in pc if c[0] == "attr" and c[2] == "is_Number"]
+        not_num = [c for c in ic if c[0] == "not" and c[1][0] == "attr" and c[1][2] == "is_Number"]
+        pv = kw(pr[0]).get("value")
+        okp = bool(is_num) and bool(not_num) and is_num[0] == not_num[0][1] and pv is not None and pv[0] == "mcall" and pv[2] == "value" and not pv[3]
+        ctx.check(okp, rule, f.key("parameter-split"), "a variable whose rhs is a number is a parameter with that value", "the parameter / intermediate split is not `rhs.is_Number` (parameter, with value var.value()) versus its negation (intermediate)", f.where())
+        skip = lambda cs: any(c[0] == "cmp" and c[1] == "!=" and c[3] == _av.C("time") for c in cs)  # noqa: E731
+        ctx.check(skip(pc) and skip(ic) and skip(sc), rule, f.key("time"), "the time variable is skipped", "the time variable is no longer skipped for every kind of atom", f.where())
+    else:
+        ctx.undecided(rule, f.key("parameter-split"), "the conditions under which atoms are collected are not understood", f.where())
+        ctx.undecided(rule, f.key("time"), "the conditions under which atoms are collected are not understood", f.where())
+
+
+def _mentions(v, t) -> bool:
+    if v == t:
+        return True
+    return isinstance(v, tuple) and any(_mentions(x, t) for x in v if isinstance(x, tuple))
